@@ -1196,16 +1196,26 @@ impl<T: PPGEvaluatorStrategy> PPGEvaluator<T> {
     }
 
     fn process_signals(&mut self, depth: u32) -> Result<(), PPGEvaluatorError> {
-        debug!("");
-        debug!("Process signals, depth {}", depth);
-        let res = self.inner_process_signals(depth);
-        debug!("Leaving process signals, {}", depth);
-        res
+        // one wave of signals after the other. The number of waves a single call needs grows
+        // with the length of the longest dependency chain, so this iterates instead of
+        // recursing (no stack to overflow), and the runaway guard scales with the graph.
+        let mut depth = depth;
+        loop {
+            debug!("");
+            debug!("Process signals, depth {}", depth);
+            let res = self.inner_process_signals(depth);
+            debug!("Leaving process signals, {}", depth);
+            res?;
+            if self.signals.is_empty() {
+                return Ok(());
+            }
+            depth += 1;
+        }
     }
 
     fn inner_process_signals(&mut self, depth: u32) -> Result<(), PPGEvaluatorError> {
-        if depth > 1500 {
-            return Err(PPGEvaluatorError::InternalError("Depth ConsiderJob loop. Either pathological input, or bug. Aborting to avoid stack overflow".to_string()));
+        if depth as usize > 1500 + 10 * self.jobs.len() {
+            return Err(PPGEvaluatorError::InternalError("Depth ConsiderJob loop. Either pathological input, or bug. Aborting to avoid an endless loop".to_string()));
         }
         let mut new_signals = Vec::new();
         let mut ignore_consider_signals = HashSet::new();
@@ -1610,9 +1620,6 @@ impl<T: PPGEvaluatorStrategy> PPGEvaluator<T> {
                 self.signals.push_back(s);
             }
             //self.signals.extend(new_signals.drain(..));
-        }
-        if !self.signals.is_empty() {
-            self.process_signals(depth + 1)?;
         }
         Ok(())
     }
